@@ -578,6 +578,13 @@ def gen_cases(seed, n, focus, strategies=None, max_tasks=8):
     for name, tasks, target in fams:
         for rep in range(2 if n < 2000 else 6):
             cases.append({"family": name, "tasks": gen.dump(tasks), "history": mk_history(rng, tasks, target, focus, strategies)})
+    if focus in ("live", "wide"):
+        for rep in range(8 if n < 2000 else 200):
+            k = rng.randint(9, 20)
+            fan = [gen.mk_task(rng.choice(["", "a"]), "w%d" % j, rng.choice(["run_command", "run_experiment"]), par=True) for j in range(k)]
+            top = gen.mk_task("", "top", rng.choice(["group", "combine", "run_command"]), [t["id"] for t in fan])
+            inv = {"target": "//:top", "jobs": rng.choice([9, 10, 12, 16, 24]), "again": False, "stop_early": False, "script": {}, "strategy": rng.choice(["blocked-all", "blocked-all", "blocked-randbatch", "eager", "anywhere"]), "seed": rng.randrange(1 << 30)}
+            cases.append({"family": "big-fan", "tasks": gen.dump(fan + [top]), "history": [inv]})
     if focus in ("deps", "cache"):
         for rep in range(6 if n < 2000 else 40):
             # the same dependency listed twice under two spellings: must be rejected, nothing may run
